@@ -138,7 +138,7 @@ xsurv0_pipe_init(void *arg, nni_pipe *npipe, void *s)
 	// an expiration with them, so that we could discard any that are
 	// not delivered before their expiration date.
 	if ((rv = nni_msgq_init(&p->sendq, 16)) != 0) {
-		xsurv0_pipe_fini(p);
+		// (the core runs our close, stop and fini for a failed init)
 		return (rv);
 	}
 
